@@ -86,3 +86,12 @@ Print Assumptions C09_combine_unique_rule.
 Theorem C09_dedup_mentions_no_new_license : forall e e', dedup e = Ok e' -> incl (literals e') (literals e).
 Proof. exact dedup_literals. Qed.
 Print Assumptions C09_dedup_mentions_no_new_license.
+
+(* an expression without repeated renderings among siblings (and with two or more operands per node) is returned as it is *)
+Theorem C09_nothing_repeated_nothing_changes : forall e, deduped e -> dedup e = Ok e.
+Proof. exact deduped_fixed. Qed.
+Print Assumptions C09_nothing_repeated_nothing_changes.
+
+Theorem C09_distinct_operands_all_kept : forall xs, NoDup (map render xs) -> uniq_by_str xs = xs.
+Proof. exact uniq_distinct. Qed.
+Print Assumptions C09_distinct_operands_all_kept.
